@@ -304,6 +304,22 @@ impl<T: Clone + Serialize + DeserializeOwned + Copy + Display> LpSolution<T> {
     }
 }
 
+/// For a model without variables every row is a constant comparison `0 <op> rhs`:
+/// returns whether all of them hold (a row that does not hold makes the model
+/// infeasible).
+pub(crate) fn constant_rows_hold(lp: &crate::transformers::LinearModel) -> bool {
+    lp.constraints().iter().all(|constraint| {
+        let rhs = constraint.rhs();
+        match constraint.constraint_type() {
+            Comparison::LessOrEqual => 0.0 <= rhs,
+            Comparison::GreaterOrEqual => 0.0 >= rhs,
+            Comparison::Equal => rhs == 0.0,
+            Comparison::Less => 0.0 < rhs,
+            Comparison::Greater => 0.0 > rhs,
+        }
+    })
+}
+
 /// Finds variables in a domain that don't satisfy a validation condition.
 ///
 /// # Arguments
